@@ -112,7 +112,7 @@ func cmdLoadDB(args []string) int {
 			emit("r", "w", "hash")
 			emit("hash")
 			emit("audit", "nodes")
-			emit("audit", "fast")
+			emit("audit", "fastvals")
 			// the library can continue on top of the model-written database
 			emit("set", "6b", "76")
 			emit("set", "00ff", ".")
